@@ -164,13 +164,30 @@ def static_checks(acc):
             now = {"params": params, "required": sorted(msggen.required_args(cls)),
                    "mandatory": {k: v.__name__ for k, v in cls.mandatory.items()},
                    "optionals": {k: v.__name__ for k, v in cls.optionals.items()}}
-            for part in ("params", "required", "mandatory", "optionals"):
-                if now[part] != frozen[part]:
-                    a, b = now[part], frozen[part]
-                    diff = sorted(set(map(str, a if isinstance(a, list) else a.items())) ^ set(map(str, b if isinstance(b, list) else b.items())))
-                    acc.violation("command-%s-differ-from-reference:%s.%s" % (part, lib, cls.__name__),
-                                  "%s.%s: %s differ from the reference tables: %s" % (lib, cls.__name__, part, diff[:6]),
-                                  {"class": "%s.%s" % key, "part": part, "now": now[part], "reference": frozen[part]})
+            # Extensions (a new optional argument, a new table entry) are legitimate and only observed; what must not
+            # happen is that something the reference has disappears, changes class, changes order or stops being required.
+            def subsequence(small, big):
+                it = iter(big)
+                return all(x in it for x in small)
+            problems = []
+            if not subsequence(frozen["params"], now["params"]):
+                problems.append(("params", "declared arguments %s are no longer all present in that order" % [x for x in frozen["params"] if x not in now["params"]][:5]))
+            lost = sorted(set(frozen["required"]) - set(now["required"]))
+            if lost:
+                problems.append(("required", "arguments %s were mandatory without default and no longer are" % lost))
+            for part in ("mandatory", "optionals"):
+                for k_, v_ in frozen[part].items():
+                    if now["mandatory"].get(k_, now["optionals"].get(k_)) != v_:
+                        problems.append((part, "argument %r maps to %r, reference %r" % (k_, now["mandatory"].get(k_, now["optionals"].get(k_)), v_)))
+                moved = sorted(k_ for k_ in frozen["mandatory"] if k_ in now["optionals"] and k_ not in now["mandatory"])
+                if part == "mandatory" and moved:
+                    problems.append((part, "entries %s moved from the mandatory to the optional table" % moved))
+            for part, text in problems[:3]:
+                acc.violation("command-%s-differ-from-reference:%s.%s" % (part, lib, cls.__name__),
+                              "%s.%s: %s" % (lib, cls.__name__, text),
+                              {"class": "%s.%s" % key, "part": part, "now": now[part], "reference": frozen[part]})
+            if not problems and any(now[p_] != frozen[p_] for p_ in ("params", "required", "mandatory", "optionals")):
+                acc.observe("command-tables-extended:%s.%s" % (lib, cls.__name__))
             acc.counters["frozen_tables_compared"] += 1
         for name in list(cls.mandatory) + list(cls.optionals):
             if name not in params:
